@@ -3,7 +3,7 @@ SPECIFICATION Spec
 CONSTANTS
   Sizes = {2, 3}
   InitStatuses = {"Active", "Inactive"}
-  MaxInitIdle = 1
+  MaxInitIdle = 3
   ArgIds = {1, 2, 3, 9}
   NewIds = {1, 4}
   Tokens = {"S", "F", "P"}
